@@ -37,10 +37,15 @@ func refKern(in []byte, l, r glyph.ID) (funit.Int16, bool) {
 		if ver != 0 || format != 0 || cov&1 == 0 || cov&0xF4 != 0 {
 			continue // not a horizontal format-0 kerning subtable
 		}
-		if start+14 > len(in) {
+		if start+8 > len(in) {
 			return 0, false
 		}
 		np := int(in[start+6])<<8 | int(in[start+7])
+		if np == 0 && start+14 > len(in) {
+			// a subtable without pairs that ends inside the (unused) binary-search fields: the specification does
+			// not say whether this is an error; both outcomes are accepted
+			refKernEither = true
+		}
 		for j := 0; j < np; j++ {
 			o := start + 14 + 6*j
 			if o+6 > len(in) {
@@ -67,22 +72,34 @@ func refKern(in []byte, l, r glyph.ID) (funit.Int16, bool) {
 	return val, true
 }
 
+var refKernEither bool
+
 // VerifH_C02_kern: kern.Read on arbitrary bytes is total and agrees with the specification.
 func VerifH_C02_kern() {
 	nt := verifChoose("subtables", 3)
 	np := verifChoose("pairs", verifParam("maxpairs", 1)+1)
 	n := 4 + nt*(14+6*np) + verifChoose("extra", 2)*3
+	// truncated tables: the input may end anywhere inside the last subtable (header, pair count, search fields, pairs)
+	if nt > 0 {
+		n -= verifChoose("cut", 14+6*np+1)
+	}
 	in := verifBytes("in", n)
 	verifAssume(in[2] == 0 && int(in[3]) <= nt+1)
 	for t := 0; t < nt; t++ {
 		o := 4 + t*(14+6*np)
 		// subtables laid out back to back (overlapping layouts are outside the bound), pair counts as sized
-		verifAssume(in[o+2] == 0 && int(in[o+3]) == 14+6*np && in[o+6] == 0 && int(in[o+7]) <= np)
+		if o+3 < n {
+			verifAssume(in[o+2] == 0 && int(in[o+3]) == 14+6*np)
+		}
+		if o+7 < n {
+			verifAssume(in[o+6] == 0 && int(in[o+7]) <= np)
+		}
 	}
 	info, err := Read(verifRS{bytes.NewReader(in)})
 	l, r := glyph.ID(verifU16("l")), glyph.ID(verifU16("r"))
+	refKernEither = false
 	want, ok := refKern(in, l, r)
-	verifAssert((err == nil) == ok, "accept/reject agrees with the specification")
+	verifAssert((err == nil) == ok || refKernEither, "accept/reject agrees with the specification")
 	if err != nil || !ok {
 		return
 	}
